@@ -208,3 +208,24 @@ Definition nrmD (r : res dense) : option (nat * nat * list Q) :=
   match r with Ok d => Some (nr d, nc d, map Qred (dat d)) | _ => None end.
 Definition nrmV (r : res (list Q)) : option (list Q) := match r with Ok v => Some (map Qred v) | _ => None end.
 Definition nrmO (r : option (list Q)) : option (list Q) := match r with Some v => Some (map Qred v) | None => None end.
+
+(* ------------------------------------------------------------------ addScalar / prodScalar (Eigen array operations) *)
+Lemma getv_mapdat d f i j : wfd d -> (i < nr d)%nat -> (j < nc d)%nat ->
+  getv (mkD (nr d) (nc d) (map f (dat d))) i j = f (getv d i j).
+Proof.
+  intros W Hi Hj. unfold getv, rank; simpl.
+  rewrite (nth_indep _ 0 (f 0)) by (rewrite map_length; apply (rank_lt d i j W Hi Hj)).
+  apply map_nth.
+Qed.
+Lemma addScalar_dense d v : wfd d ->
+  exists r, D_addScalar d v = Ok r /\ nr r = nr d /\ nc r = nc d /\ meq (nr d) (nc d) (absd r) (maddc v (absd d)).
+Proof.
+  intro W. eexists. split; [reflexivity|]. split; [reflexivity|]. split; [reflexivity|].
+  intros i j Hi Hj. unfold absd at 1. rewrite getv_mapdat by assumption. reflexivity.
+Qed.
+Lemma prodScalar_dense d v : wfd d ->
+  exists r, D_prodScalar d v = Ok r /\ nr r = nr d /\ nc r = nc d /\ meq (nr d) (nc d) (absd r) (mscal v (absd d)).
+Proof.
+  intro W. eexists. split; [reflexivity|]. split; [reflexivity|]. split; [reflexivity|].
+  intros i j Hi Hj. unfold absd at 1. rewrite getv_mapdat by assumption. unfold mscal, absd. ring.
+Qed.
